@@ -70,12 +70,12 @@ def build(rnd, tier, flags):
     r = gen.R(rnd)
     fixed = r.chance(35)
     if fixed:
-        fo = layout.FixedOpts(semis=r.pick([0, 0, 15, 70]), trail_blanks=r.pick([0, 0, 30]), wrap=r.pick([72, 60, 40, 25]), comments=r.pick([0, 25]), cont_comments=r.pick([0, 40]),
+        fo = layout.FixedOpts(eol_variants=True, semis=r.pick([0, 0, 15, 70]), trail_blanks=r.pick([0, 0, 30]), wrap=r.pick([72, 60, 40, 25]), comments=r.pick([0, 25]), cont_comments=r.pick([0, 40]),
                               blank_lines=r.pick([0, 10]), extra_indent=r.chance(50), lit_cross=r.pick([0, 100]),
                               lit_pad=r.pick([0, 50]), names=gen.ALL_NAMES, excl=set(flags))
         lay = layout.fixed_layout(flat, rnd, fo)
     else:
-        lo = layout.FreeOpts(trail_blanks=r.pick([0, 0, 25]), big_indent=r.pick([0, 0, 10]), cont=r.pick([5, 15, 25]), lead_amp=r.pick([0, 50, 100]), lit_break=r.pick([0, 40]),
+        lo = layout.FreeOpts(eol_variants=True, trail_blanks=r.pick([0, 0, 25]), big_indent=r.pick([0, 0, 10]), cont=r.pick([5, 15, 25]), lead_amp=r.pick([0, 50, 100]), lit_break=r.pick([0, 40]),
                              comments=r.pick([0, 20]), trailing=r.pick([0, 15]), blank_lines=r.pick([0, 10]),
                              cont_comments=r.pick([0, 40]), semis=r.pick([0, 25, 80]), indent=True, blanks=r.chance(30),
                              names=gen.ALL_NAMES, excl=set(flags))
